@@ -256,6 +256,26 @@ def run_api_shapes(_):
                     continue
             if got != group:
                 viols.append((f"C18:source-tag-api", f"source tags {group} come back as {got}", case))
+        # indices: any integer the writer prints must come back (labels below -1, 0, -1, six digits), and the second
+        # cycle must be identical
+        for group in ([-2, -3, 5], [0, -1, 7], [-2], [-10, 123456, 0], [-1, -1, -1]):
+            n += 1
+            case = {"api_shape": ["indices", group]}
+            with quiet():
+                rs = [Reaction(["C", "O"], ["CO"], 10.0, 300.0, 1e-10 * (i_ + 1), 0.0, 0.0, ReactionType.GAS_TWOBODY, ix) for i_, ix in enumerate(group)]
+                f, f2 = tmp / "idx.naunet", tmp / "idx2.naunet"
+                try:
+                    Network(rs).write(f, "naunet")
+                    back = Network(filelist=str(f), fileformats="naunet")
+                    got = [r_.idxfromfile for r_ in back.reaction_list]
+                    back.write(f2, "naunet")
+                except Exception as e:
+                    viols.append((f"C18:index-api:raises", f"indices {group}: write/read raises {e!r}", case))
+                    continue
+            if got != group:
+                viols.append((f"C18:index-api", f"indices {group} come back as {got}", case))
+            elif f.read_bytes() != f2.read_bytes():
+                viols.append((f"C18:index-api:second-cycle", f"indices {group}: the second written file differs from the first", case))
         # networks that hold no reaction (a new network, a network after its reactions were removed or filtered out by
         # the allowed list): the written file reads back to no reaction and the same species
         for tag in ("new", "all-removed", "all-filtered", "only-required"):
